@@ -71,6 +71,8 @@ func main() {
 			os.Exit(2)
 		}
 		os.Exit(runCheck(os.Args[2], os.Args[3]))
+	case "selftest":
+		os.Exit(selfTestMain(os.Args[2:]))
 	case "replay":
 		os.Exit(replayTape(os.Args[2]))
 	default:
